@@ -205,6 +205,9 @@ func main() {
 		outTxt = os.Args[2]
 	}
 	repo := "/repo"
+	if r := os.Getenv("VERIF_REPO"); r != "" { // testing aid: another checkout of the repository
+		repo = r
+	}
 	if r := os.Getenv("VERIF_REPO"); r != "" { // scratch copies only (testing a proposed fix)
 		repo = r
 	}
